@@ -405,6 +405,7 @@ type vRow struct {
 	HopMPP    []bool      `json:"hopmpp,omitempty"`    // per hop: MPP record present
 	Session   bool        `json:"session,omitempty"`   // restrictions built like paymentSession.RequestRoute
 	Stream    string      `json:"stream,omitempty"`    // "" base | hint | blinded | directed
+	CustomLen int         `json:"customlen"`           // bytes of the destination custom record 70000, -1 none
 }
 
 func (c *vCase) row(ci int, variant string) *vRow {
@@ -416,6 +417,7 @@ func (c *vCase) row(ci int, variant string) *vRow {
 		LastHop: c.lastHop, IgnNodes: append([]int{}, c.ignNodes...),
 		IgnPairs: append([][2]int{}, c.ignPairs...),
 		Hints:    [][2]uint64{},
+		CustomLen: c.custom,
 	}
 	var ids []uint64
 	for id := range c.hints {
